@@ -15,6 +15,7 @@
 struct verif_gate __verif_gate;
 int __verif_vm_r; uint8_t __verif_top_tag; int64_t __verif_top_i64;   /* ghost inputs, never assigned */
 int __verif_sa_called, __verif_sa_ret;     /* ghost (C10.exit.vm_main): run_standalone was called / what it returned */
+int __verif_sigpipe_ign;                   /* ghost (C16.sigpipe): SIGPIPE -> SIG_IGN was installed */
 
 #define EXIT_SPEC_POST(ret) \
     __CPROVER_ensures(G.main_executed ==> (ret) == SPEC_EXIT(__verif_vm_r, __verif_top_tag, __verif_top_i64)) \
@@ -51,11 +52,25 @@ void h_run_standalone(void)
 /* C10.exit.vm_main: `main` of nano_vm hands run_standalone's status to the OS unchanged (any int, including negative
  * ones: nano_virt --run and the wrapper return (int)result as it is).  run_standalone / run_daemon are replaced by
  * contracts returning arbitrary ghost values. */
+/* C16.sigpipe: writes to a dead co-process pipe (vm_ffi_call_cop, vm_ffi_cop_stop) must not kill the VM: SIGPIPE has to be
+ * ignored before anything is run.  `signal` / `sigaction` are stubs recording SIGPIPE -> SIG_IGN in a ghost; the contract by
+ * which run_standalone is replaced REQUIRES the ghost (checked at the call in main). */
+#include <signal.h>
+typedef void (*verif_sighandler_t)(int);
+verif_sighandler_t signal(int sig, verif_sighandler_t h)
+{ if (sig == SIGPIPE && h == SIG_IGN) __verif_sigpipe_ign = 1; return SIG_DFL; }
+int sigaction(int sig, const struct sigaction *sa, struct sigaction *old)
+{ (void)old; if (sig == SIGPIPE && sa != NULL && sa->sa_handler == SIG_IGN) __verif_sigpipe_ign = 1; return 0; }
+
 #define main vm_main
 #include "nanovm/main.c"
 #undef main
 static int run_standalone(const char *path)
+#ifdef VERIF_SIGPIPE
+__CPROVER_requires(__verif_sigpipe_ign == 1)
+#else
 __CPROVER_requires(1)
+#endif
 __CPROVER_assigns(__verif_sa_called)
 __CPROVER_ensures(__verif_sa_called == 1 && __CPROVER_return_value == __verif_sa_ret);
 static int run_daemon(const char *path)
@@ -64,8 +79,8 @@ __CPROVER_assigns()
 __CPROVER_ensures(1);
 int vm_main(int argc, char *argv[])
 __CPROVER_requires(argc >= 0 && argc <= 64 && __CPROVER_is_fresh(argv, ((size_t)argc + 1) * sizeof(char *)))
-__CPROVER_requires(__verif_sa_called == 0 && GATE_INIT)
-__CPROVER_assigns(G, g_argc, g_argv, g_isolate_ffi, __verif_sa_called)
+__CPROVER_requires(__verif_sa_called == 0 && __verif_sigpipe_ign == 0 && GATE_INIT)
+__CPROVER_assigns(G, g_argc, g_argv, g_isolate_ffi, __verif_sa_called, __verif_sigpipe_ign)
 __CPROVER_ensures(__verif_sa_called ==> __CPROVER_return_value == __verif_sa_ret);
 
 void h_vm_main(void)
